@@ -156,6 +156,11 @@ def build_pre_session(rng, tmp, kind):
     for c_ in range(rng.randrange(6, 11)):
         idx = np.array([rng.randrange(n) for _ in range(rng.randrange(1, n))])
         feats = X[idx].copy() if c_ % 2 == 0 else np.full((len(idx), X.shape[1]), 0.5)
+        if c_ % 3 == 1 and kind in ("sup", "unsup"):
+            # a call without an index array: the records are then rows 0, 1, ... of the matrix (their position in the batch) - the
+            # same samples, asked about the other way; nothing about the model changes by being asked this way
+            mpos = rng.randrange(1, n)
+            s.predict(o, 1, X[:mpos].copy(), None, keys=list(range(mpos)))
         s.predict(o, 1, feats, idx, keys=idx)
     return s
 
